@@ -12,6 +12,7 @@ import (
 	"net/rpc"
 	"sync"
 
+	"github.com/hashicorp/go-plugin/internal/verifhook"
 	"github.com/hashicorp/yamux"
 )
 
@@ -86,6 +87,7 @@ func (s *RPCServer) ServeConn(conn io.ReadWriteCloser) {
 	}
 
 	// Connect the stdstreams (in, out, err)
+	verifhook.Point("rpcserver.serveconn.control")
 	stdstream := make([]net.Conn, 2)
 	for i := range stdstream {
 		stdstream[i], err = mux.Accept()
@@ -181,6 +183,7 @@ func (d *dispenseServer) Dispense(
 	// Reserve an ID for our implementation
 	id := d.broker.NextId()
 	*response = id
+	verifhook.Point("rpcserver.dispense.after-id")
 
 	// Run the rest in a goroutine since it can only happen once this RPC
 	// call returns. We wait for a connection for the plugin implementation
